@@ -162,12 +162,9 @@ Fixpoint capture_silent_from (d : Z) (h : list op) (es : list event) : bool :=
 Definition capture_silent_b (h : list op) (es : list event) : bool := capture_silent_from 0 h es.
 
 (* well-formed input of the text theorems: printed text has no escape/control characters, control
-   segments are unstyled and made of complete escape sequences / control characters *)
-Section WF.
-Variable truthy : Z -> bool.
+   segments (styled or not) are made of complete escape sequences / control characters *)
 Definition wf_seg_b (g : sg) : bool :=
-  if ctl g then negb (truthy_o truthy (sty g)) && invisible_b (txt g) else plain_b (txt g).
+  if ctl g then invisible_b (txt g) else plain_b (txt g).
 Definition wf_op_b (c : cfg) (o : op) : bool :=
   match op_out c o with Some segs => forallb wf_seg_b segs | None => true end.
 Definition wf_hist_b (c : cfg) (h : list op) : bool := forallb (wf_op_b c) h.
-End WF.
